@@ -25,7 +25,11 @@ RULE = ('abstract baskets (1-6 sequences; lengths 0-200 biased to 0, 1, 59-61; n
         'lines, lower case, "id description" headers, CRLF, interleaved Stockholm blocks with #=G? annotation lines, read->write->'
         'read->write; thorough adds the exhaustive box {A,m,e,t,-}^<=5 x widths 1-6. Domain decided by the model (wf_C01). '
         'non-trivial = distinct case with a branch marker (wrapped, comment, blank, lower, meta, description, header kept, '
-        'db-tag id, empty sequence, interleaved block, append, handle/path transport)')
+        'db-tag id, empty sequence, interleaved block, append, handle/path transport); keyword stream (literals of the plugins as ids / '
+        'residues); ids made of the IDPATTERN database tags followed by ":"; content auto-detection (also with blank lines before the '
+        'first header); HISTORY stream: several write/read calls, in-place edits (data, id, reverse, str.replace, header, pop, the same '
+        'BioSeq twice, order), fresh objects, colliding baskets/texts and mutation of returned objects inside one process, every '
+        'observing step compared with the pure model on the current value')
 TRUSTED = ['CPython text layer (open/TextIOWrapper universal newlines, StringIO), str.strip/lstrip/rstrip/split/upper/removeprefix, '
            're.match on IDPATTERN (modelled by a hand-written matcher, pinned to the pattern text and compared on adversarial '
            'headers), json.dump/json.load text layer (SJSON is modelled at tree level), dict insertion order, the OS appending '
@@ -39,7 +43,7 @@ ASSUMPTIONS = ['Python str restricted to Latin-1 code points; the claimed domain
 RES_NT = 'ACGTUNRYKM-.'
 RES_AA = 'ACDEFGHIKLMNPQRSTVWY*-X'
 IDCH = 'abcdefghijklmnopqrstuvwxyzABCDEFGHIJKLMNOPQRSTUVWXYZ0123456789_.-:/#=+[]()<>@!$%&^~{}?'
-ADV_IDS = ['gb:x', 'sp|a|b', 'a;b', 'xgb:y', '>x', 'a,b', 'lcl|z', 'gb|', '#x', '//x', 'agb:', 'gb:gb:q', 'ref|NC_1.2|', 'None',
+ADV_IDS = ['sp:P69905', 'tr:A0A024R161', 'contig_ref:12', 'xref:1', 'emb:X1', 'dbj:D1', 'lcl:a', 'gb:x', 'sp|a|b', 'a;b', 'xgb:y', '>x', 'a,b', 'lcl|z', 'gb|', '#x', '//x', 'agb:', 'gb:gb:q', 'ref|NC_1.2|', 'None',
            'x>', 'tr|', 'a:b', 'emb|E1|nm', 'dbj|', '#=GF', '# STOCKHOLM', 'gbgb:w', 'g', 'sp', 'x|', ';', '|', ',', 'a b', '', None]
 
 
@@ -88,7 +92,8 @@ def keywords():
 
 def kw_ids(k):
     """ids built from keyword k that are legal in every id alphabet (no whitespace, not starting with # / >)"""
-    return [k, k.upper(), k.lower(), 'NoV_' + k.capitalize() + '_2016/1-5', k + '.1', 'x' + k, '1.0' + k + '=', k + '#=GF']
+    return [k, k.upper(), k.lower(), 'NoV_' + k.capitalize() + '_2016/1-5', k + '.1', 'x' + k, '1.0' + k + '=', k + '#=GF',
+            k + ':P69905', 'contig_' + k + ':12']
 
 
 def kw_res(k):
@@ -287,6 +292,224 @@ def g_gff_text(rng):
     return '\n'.join(pre) + '\n##FASTA' + rng.choice(['', '', ' ', 'x']) + '\n' + body
 
 
+# ----------------------------------------------------------------------------- history stream (state independence)
+# A history is a list of steps on ONE basket object (and on literal texts) inside one process. The model is pure, so the
+# expected result of every observing step is the model applied to the CURRENT abstract value, which the driver tracks:
+# cells = the distinct BioSeq objects [id, data, header], order = which cell sits at each basket position (a cell may occur
+# twice: the same BioSeq object appended twice).
+#   ['wr', fmt, via, mutate]   write the basket, read the text back -> [text, objects]; optionally mutate the objects read
+#   ['r', fmt, text, mutate]   read a literal text -> objects; optionally mutate the returned basket afterwards
+#   ['edit', kind, idx, value] in-place edit: data | id | reverse | replace | header | pop | dup | swap
+#   ['fresh']                  rebuild the basket from fresh BioSeq objects with the current values
+#   ['new', seqs]              another basket (same process; ids / lengths may collide with the previous one)
+H_EDITS = ['data', 'id', 'reverse', 'replace', 'header', 'pop', 'dup', 'swap']
+
+
+def h_init(seqs):
+    cells = [[i, d.upper(), h] for i, d, h in seqs]
+    return cells, list(range(len(cells)))
+
+
+def h_edit(cells, order, kind, idx, value):
+    """apply an in-place edit to the abstract value (Python aliasing semantics)"""
+    if kind == 'swap':
+        order.reverse()
+        return
+    if not order:
+        return
+    k = idx % len(order)
+    c = cells[order[k]]
+    if kind == 'data':
+        c[1] = value.upper()
+    elif kind == 'id':
+        c[0] = value
+    elif kind == 'reverse':
+        c[1] = c[1][::-1]
+    elif kind == 'replace':
+        c[1] = c[1].replace(value[0], value[1])
+    elif kind == 'header':
+        c[2] = value
+    elif kind == 'pop':
+        del order[k]
+    elif kind == 'dup':
+        order.append(order[k])
+
+
+def h_states(case):
+    """abstract basket [[id, data, header], ...] in front of every step"""
+    cells, order = h_init(case['seqs'])
+    out = []
+    for st in case['steps']:
+        out.append([list(cells[j]) for j in order])
+        if st[0] == 'edit':
+            h_edit(cells, order, st[1], st[2], st[3])
+        elif st[0] == 'new':
+            cells, order = h_init(st[1])
+        elif st[0] == 'fresh':
+            cur = [list(cells[j]) for j in order]
+            cells, order = cur, list(range(len(cur)))
+    return out
+
+
+def _drop_empty_fts(t):
+    """writing GFF leaves an empty FeatureList in every seq.meta (BioSeq.fts getter); it is not a sequence observable"""
+    if isinstance(t, list):
+        if t and t[0] == 'D':
+            return ['D'] + [[k, _drop_empty_fts(v)] for k, v in t[1:]
+                            if not (k == 'fts' and v == ['D', ['data', ['L']], ['_cls', 'FeatureList']])]
+        return [_drop_empty_fts(x) for x in t]
+    return t
+
+
+def _mutate_result(o):
+    for s in o:
+        s.id = 'MUTATED'
+        s.data = 'NNNN'
+        if '_fasta' in s.meta:
+            s.meta._fasta.header = 'mutated header'
+    if len(o):
+        o.pop()
+
+
+def impl_history(case, d):
+    from sugar import BioSeq
+    from sugar.data import CODES
+    NT_CODES = set(CODES) | {'U'}
+    cells, order = h_init(case['seqs'])
+
+    def mk_cell(c):
+        s = BioSeq(c[1], id=c[0])
+        if c[2] is not None:
+            s.meta._fasta = {'header': c[2]}
+        return s
+    from sugar import BioBasket
+    objs_ = [mk_cell(c) for c in cells]
+    basket = BioBasket([objs_[j] for j in order])
+    keep = []           # results stay alive (and mutated) until the end of the history
+    out = []
+    for st in case['steps']:
+        kind = st[0]
+        if kind == 'wr':
+            _, fmt, via, mutate = st
+            try:
+                t1 = do_write(basket, fmt, via, d)
+                o1 = do_read(t1, fmt, via, d)
+                r = [_drop_empty_fts(canon_text(fmt, t1)), objs(o1)]
+                if mutate:
+                    _mutate_result(o1)
+                keep.append(o1)
+            except Exception as e:
+                r = {'e': 'ValueError' if isinstance(e, json.JSONDecodeError) else type(e).__name__}
+            out.append(r)
+        elif kind == 'r':
+            _, fmt, text, mutate = st
+            try:
+                o1 = do_read(text, fmt, 'sio' if '\r' not in text else 'str', d)
+                r = objs(o1)
+                if mutate:
+                    _mutate_result(o1)
+                keep.append(o1)
+            except Exception as e:
+                r = {'e': type(e).__name__}
+            out.append(r)
+        elif kind == 'edit':
+            _, ek, idx, value = st
+            if ek == 'swap':
+                basket.data.reverse()        # list order (BioBasket.reverse() reverses every sequence instead)
+            elif len(basket):
+                k = idx % len(basket)
+                s = basket[k]
+                if ek == 'data':         # BioSeq never re-infers its type: assign data and type together
+                    s.data = value.upper()
+                    s.type = 'nt' if all(ch in NT_CODES for ch in s.data) else 'aa'
+                elif ek == 'id':
+                    s.id = value
+                elif ek == 'reverse':
+                    assert s.reverse() is s
+                elif ek == 'replace':
+                    assert s.str.replace(value[0], value[1]) is s
+                elif ek == 'header':
+                    s.meta._fasta = {'header': value}
+                elif ek == 'pop':
+                    basket.pop(k)
+                elif ek == 'dup':
+                    basket.append(s)
+            h_edit(cells, order, ek, idx, value)
+        elif kind == 'fresh':
+            cur = [list(cells[j]) for j in order]
+            cells, order = cur, list(range(len(cur)))
+            basket = BioBasket([mk_cell(c) for c in cells])
+        elif kind == 'new':
+            cells, order = h_init(st[1])
+            basket = BioBasket([mk_cell(c) for c in cells])
+    return out
+
+
+def h_collide(rng, seqs):
+    """another basket with the same ids and lengths but other residues (a plausible cache-key collision)"""
+    out = []
+    for i, d, h in seqs:
+        alpha = 'ACGT' if set(d.upper()) <= set('ACGTUN-.') else 'MKVLW'
+        out.append([i, ''.join(rng.choice(alpha) for _ in d), h])
+    return out
+
+
+def history_cases(rng, tier):
+    cases = []
+    n = 1500 if tier == 'thorough' else 260
+    for _ in range(n):
+        seqs = []
+        for k in range(rng.choice([1, 2, 2, 3, 4])):
+            i = rng.choice(['s%d' % k, 'seq_%d' % k, 'id%dX' % k, g_id(rng, adv=0.05) or 'q%d' % k])
+            seqs.append([i, g_res(rng, 30) or rng.choice('ACGU'), g_header(rng, i) if rng.random() < 0.3 else None])
+        steps = []
+        fm = rng.choice(FMTS)
+        for _ in range(rng.choice([3, 4, 5, 6, 8])):
+            r = rng.random()
+            if r < 0.45:
+                f = fm if rng.random() < 0.5 else rng.choice(FMTS)          # the same format again, or another one
+                steps.append(['wr', f, rng.choice(['str', 'str', 'sio', 'path']), rng.random() < 0.5])
+                if rng.random() < 0.3:
+                    steps.append(list(steps[-1]))                            # the same call twice
+            elif r < 0.75:
+                ek = rng.choice(H_EDITS)
+                val = {'data': g_res(rng, 30) or 'A', 'id': rng.choice(['s9', 'renamed', 'sp:P1', seqs[0][0]]),
+                       'replace': rng.choice([['A', 'C'], ['M', 'K'], ['-', '.'], ['T', 'U']]),
+                       'header': rng.choice(['other desc', 'x', ''])}.get(ek)
+                steps.append(['edit', ek, rng.randrange(0, 4), val])
+            elif r < 0.83:
+                steps.append(['fresh'])
+            elif r < 0.9:
+                steps.append(['new', h_collide(rng, seqs) if rng.random() < 0.7 else g_seqs(rng, hi=3)])
+            else:
+                f = rng.choice(['fasta', 'fasta', 'stockholm', 'gff'])
+                t1 = {'fasta': g_fasta_text, 'stockholm': g_stk_text, 'gff': g_gff_text}[f](rng)
+                t2 = re.sub(r'[ACGTacgt]', lambda m: rng.choice('ACGT'), t1) if f != 'stockholm' else t1.replace('A', 'C')
+                steps += [['r', f, t1, rng.random() < 0.6], ['r', f, t2, False], ['r', f, t1, False]]
+        if rng.random() < 0.6:        # call, in-place edit, the same call again (stale per-object state shows here)
+            ek = rng.choice(['data', 'id', 'reverse', 'replace', 'header', 'dup', 'pop'])
+            val = {'data': g_res(rng, 30) or 'C', 'id': rng.choice(['s9', 'renamed', 'tr:A0A1']),
+                   'replace': rng.choice([['A', 'C'], ['M', 'K'], ['-', '.'], ['T', 'U'], ['G', 'A']]), 'header': 'new desc'}.get(ek)
+            v = rng.choice(['str', 'sio', 'path'])
+            steps = [['wr', fm, v, rng.random() < 0.5]] + steps + [['edit', ek, rng.randrange(0, 4), val], ['wr', fm, v, False]]
+        if not any(st[0] in ('wr', 'r') for st in steps):
+            steps.append(['wr', fm, 'str', False])
+        cases.append({'op': 'history', 'fmt': fm, 'seqs': seqs, 'steps': steps})
+    return cases
+
+
+def detectable(fmt, text):
+    """texts for which read() without fmt is expected to find the format: the sniffers look at the first 50 / 11 / 100
+    characters (fasta.py:13, stockholm.py:16, gff.py:20)"""
+    if fmt == 'fasta':
+        return text[:40].strip().startswith('>')
+    if fmt == 'stockholm':
+        return text.startswith('# STOCKHOLM')
+    if fmt == 'gff':
+        return text.startswith('##gff-version 3')
+    return False
+
+
 def gen_cases(rng, tier):
     cases = []
     vias = ['str', 'str', 'path', 'ext', 'handle', 'sio', 'auto']
@@ -296,6 +519,15 @@ def gen_cases(rng, tier):
         cases.append({'op': 'cycle', 'fmt': fmt, 'seqs': [['s1', 'ametab', None], ['s2', 'ACGU', None]], 'via': 'str'})
         cases.append({'op': 'cycle', 'fmt': fmt, 'seqs': [['s1', 'MKV*', 's1 a protein'], ['s1', 'acgt-n', None]], 'via': 'path'})
     cases += kw_cases(rng, tier)
+    for fmt in FMTS:       # database tags of IDPATTERN followed by ':' (legal ids, not matched by the pattern) and by '|'
+        for tag in ['emb', 'dbj', 'sp', 'tr', 'ref', 'lcl', 'gb']:
+            cases.append({'op': 'cycle', 'fmt': fmt, 'via': 'str',
+                          'seqs': [['seq1', 'ACGT', None], [tag + ':P69905', 'MVLSPADKTN', None], ['contig_' + tag + ':12', 'ACGTNN--ACGT', None],
+                                   [tag + '|Q1|x', 'MKV*', None]]})
+    for pre in ['\n', '  \n', '\n\n', '\t\n \n']:
+        for via in ['auto', 'auto-sio', 'str']:
+            cases.append({'op': 'read', 'fmt': 'fasta', 'text': pre + '>seq1 d\nACGT\nAC\n>seq2\nMKV*\n', 'via': via})
+    cases += history_cases(rng, tier)
     for _ in range(n_cycle):
         fmt = rng.choice(FMTS)
         c = {'op': 'cycle', 'fmt': fmt, 'seqs': g_seqs(rng, fmt=fmt), 'via': rng.choice(vias)}
@@ -314,6 +546,8 @@ def gen_cases(rng, tier):
         else:
             fmt, text = 'gff', g_gff_text(rng)
         via = rng.choice(['str', 'path', 'handle'] if '\r' in text else ['str', 'path', 'handle', 'sio'])
+        if detectable(fmt, text) and rng.random() < 0.35:
+            via = rng.choice(['auto', 'auto-sio'] if '\r' not in text else ['auto'])
         cases.append({'op': 'read', 'fmt': fmt, 'text': text, 'via': via})
     if tier == 'thorough':
         # exhaustive box: every string over {A,m,e,t,-} up to length 5, wrapped at every width 1..6 (FASTA reader)
@@ -429,6 +663,8 @@ def do_read(text, fmt, via, d):
             return BioBasket.fromfmtstr(text, fmt=fmt)
         if via == 'sio':
             return read(io.StringIO(text), fmt)
+        if via == 'auto-sio':
+            return read(io.StringIO(text))
         p = d.path('r.' + EXT[fmt])
         with open(p, 'w', newline='') as f:
             f.write(text)
@@ -452,6 +688,8 @@ def impl(case):
     op, fmt = case['op'], case['fmt']
     via = case.get('via', 'str')
     with _Tmp() as d:
+        if op == 'history':
+            return impl_history(case, d)
         if op == 'cycle':
             b0 = mk_basket(case['seqs'])
             if case.get('fts'):
@@ -501,7 +739,20 @@ def coq_seqs(seqs):
     return coq_list([coq_pair(coq_opt(i, coq_bs), coq_bs(d), coq_opt(h, coq_bs)) for i, d, h in seqs])
 
 
+def _term(op, fmt, seqs=(), seqs2=(), fts=(), text=''):
+    ftl = coq_list([coq_pair(coq_bs(i), coq_bs(t), coq_nat(a), coq_nat(e), '"%s"%%byte' % st) for i, t, a, e, st in fts])
+    return 'run_C01 %s %s %s %s %s %s' % (coq_N(op), coq_N(FMTS.index(fmt)), coq_seqs(seqs), coq_seqs(seqs2), ftl, coq_bs(text))
+
+
 def model_term(case):
+    if case['op'] == 'history':
+        terms = []
+        for st, cur in zip(case['steps'], h_states(case)):
+            if st[0] == 'wr':
+                terms.append(_term(3, st[1], seqs=cur))
+            elif st[0] == 'r':
+                terms.append(_term(4, st[1], text=st[2]))
+        return 'out (VL [%s])' % '; '.join(terms)
     fts = coq_list([coq_pair(coq_bs(i), coq_bs(t), coq_nat(a), coq_nat(e), '"%s"%%byte' % st) for i, t, a, e, st in case.get('fts', [])])
     return 'out (run_C01 %s %s %s %s %s %s)' % (coq_N(OPS[case['op']]), coq_N(FMTS.index(case['fmt'])),
                                                 coq_seqs(case.get('seqs', [])), coq_seqs(case.get('seqs2', [])), fts,
@@ -509,6 +760,36 @@ def model_term(case):
 
 
 def valid_case(case):
+    if case.get('op') == 'history':
+        if not isinstance(case.get('seqs'), list) or any(len(x) != 3 or x[1] is None for x in case['seqs']):
+            return False
+        ok = False
+        for st in case.get('steps', []):
+            if not isinstance(st, list) or not st:
+                return False
+            if st[0] == 'wr':
+                if len(st) != 4 or st[1] not in FMTS or st[2] not in ('str', 'sio', 'path'):
+                    return False
+                ok = True
+            elif st[0] == 'r':
+                if len(st) != 4 or st[1] not in ('fasta', 'stockholm', 'gff'):
+                    return False
+                ok = True
+            elif st[0] == 'edit':
+                if len(st) != 4 or st[1] not in H_EDITS or not isinstance(st[2], int) or st[2] < 0:
+                    return False
+                if st[1] in ('data', 'id', 'header') and not isinstance(st[3], str):
+                    return False
+                if st[1] == 'replace' and not (isinstance(st[3], list) and len(st[3]) == 2 and len(st[3][0]) == 1):
+                    return False
+            elif st[0] == 'new':
+                if len(st) != 2 or any(len(x) != 3 or x[1] is None for x in st[1]):
+                    return False
+            elif st != ['fresh']:
+                return False
+        return ok
+    if case.get('op') not in OPS or case.get('fmt') not in FMTS:
+        return False
     for ft in case.get('fts', []):
         if len(ft) != 5 or len(ft[4]) != 1 or ft[2] >= ft[3] or ft[4] not in '+-.?':
             return False
@@ -516,6 +797,8 @@ def valid_case(case):
 
 
 def split_model(case, m):
+    if case['op'] == 'history':
+        return all(bool(x[0]) for x in m), [x[1] for x in m]
     return bool(m[0]), m[1]
 
 
@@ -568,7 +851,32 @@ def _expected_from_text(fmt, text):
     return [{'id': k, 'data': v.upper(), 'header': None} for k, v in rows.items()]
 
 
+def spec_history(case, got):
+    if isinstance(got, dict):
+        return 'raised %s inside the claimed domain' % got.get('e')
+    obs = [(st, cur) for st, cur in zip(case['steps'], h_states(case)) if st[0] in ('wr', 'r')]
+    for k, ((st, cur), r) in enumerate(zip(obs, got)):
+        if isinstance(r, dict):
+            return 'step %d %r raised %s inside the claimed domain' % (k, st[:2], r.get('e'))
+        if st[0] == 'wr':
+            want = [[i, d] for i, d, h in cur]
+            if [x[:2] for x in r[1]] != want:
+                return 'step %d write/read %s returned %r, the basket holds %r' % (k, st[1], [x[:2] for x in r[1]], want)
+        else:
+            exp = _expected_from_text(st[1], st[2])
+            if exp is None:
+                continue
+            if len(r) != len(exp):
+                return 'step %d read %d records, text has %d' % (k, len(r), len(exp))
+            for x, e in zip(r, exp):
+                if x[1] != e['data'] or (e['id'] is not None and x[0] != e['id']):
+                    return 'step %d read %r, text has %r' % (k, x[:2], [e['id'], e['data']])
+    return None
+
+
 def spec(case, got):
+    if case['op'] == 'history':
+        return spec_history(case, got)
     if isinstance(got, dict):
         return 'raised %s inside the claimed domain' % got.get('e')
     op, fmt = case['op'], case['fmt']
@@ -619,6 +927,17 @@ def spec(case, got):
 def _marks(case, got):
     op, fmt = case['op'], case['fmt']
     ms = []
+    if op == 'history':
+        for st in case['steps']:
+            ms.append('h-' + (st[0] if st[0] != 'edit' else 'edit-' + st[1]))
+            if st[0] in ('wr', 'r') and st[3]:
+                ms.append('h-mutate-result')
+        steps = case['steps']
+        if any(a == b and a[0] == 'wr' for a, b in zip(steps, steps[1:])):
+            ms.append('h-same-call-twice')
+        if len(set(st[1] for st in steps if st[0] == 'wr')) > 1:
+            ms.append('h-formats-mixed')
+        return sorted(set(ms))
     if op in ('cycle', 'append'):
         seqs = case['seqs'] + case.get('seqs2', [])
         if any(h is not None for _, _, h in seqs):
@@ -683,7 +1002,9 @@ def nontrivial(case, got):
 
 def histkey(case, got):
     ks = ['op=' + case['op'], 'fmt=' + case['fmt'], 'raised' if isinstance(got, dict) else 'returned']
-    if case['op'] == 'read':
+    if case['op'] == 'history':
+        ks.append('steps=%d' % len(case['steps']))
+    elif case['op'] == 'read':
         n = len(case['text'])
         ks.append('textlen=' + ('<50' if n < 50 else '<200' if n < 200 else '200+'))
     else:
